@@ -113,7 +113,7 @@ class Gen:
             if c:
                 return Action(ActionType.FindData, {"source_host": s, "target_host": rng.choice(c)})
         if kind in ("ex1", "ex2", "ex3"):
-            known_t = sorted(view.known_services, key=str)
+            known_t = sorted((t for t in view.known_services if view.known_services[t]), key=str)      # entries that are present but empty have nothing to pick
             if kind == "ex1":
                 c = [t for t in known_t if not self._allowed(s, t)]
                 if c:
@@ -260,6 +260,15 @@ class Gen:
             known |= set(rng.sample(self.ips, rng.randint(0, min(3, len(self.ips)))))
         nets = {n for n, hs in self.w._networks.items() if any(h in hs for h in ctrl)}
         v = GameState(controlled_hosts=ctrl, known_hosts=known, known_services={}, known_data={}, known_networks=nets, known_blocks={})
+        if rng.random() < 0.3:
+            # the valid start configuration `known_data: {ip: []}` (and its siblings): entries that are present but empty
+            for h in sorted(ctrl, key=str):
+                if rng.random() < 0.6:
+                    v.known_data[h] = set()
+                if rng.random() < 0.3:
+                    v.known_services[h] = set()
+                if rng.random() < 0.3:
+                    v.known_blocks[h] = set()
         if wellformed:
             return v
         # arbitrary (possibly unreachable) view: services / data / blocks that need not exist
